@@ -85,11 +85,17 @@ impl SubWordValue {
         Some(SubWord::new(offset, size))
     }
 
+    /// Converts a constant shift amount without letting a huge value alias a small
+    /// one through its low bits.
+    fn shift_amount(shift: &crate::vm::value::known::KnownWord) -> usize {
+        usize::try_from(shift.value_le()).unwrap_or(usize::MAX)
+    }
+
     #[must_use]
     pub fn get_shift(value: &RuntimeBoxedVal) -> (&RuntimeBoxedVal, usize) {
         match &value.data() {
             RSVD::RightShift { value, shift } => match shift.constant_fold().data() {
-                RSVD::KnownData { value: shift } => (value, shift.into()),
+                RSVD::KnownData { value: shift } => (value, Self::shift_amount(shift)),
                 _ => (value, 0),
             },
             RSVD::Divide { dividend, divisor } => match divisor.data() {
@@ -99,7 +105,7 @@ impl SubWordValue {
                 } => match (base.data(), exp.data()) {
                     (RSVD::KnownData { value: base }, RSVD::KnownData { value: exp }) => {
                         if usize::from(base) == 2 {
-                            (dividend, usize::from(exp))
+                            (dividend, Self::shift_amount(exp))
                         } else {
                             (value, 0)
                         }
@@ -110,7 +116,7 @@ impl SubWordValue {
                     (RSVD::KnownData { value: base }, RSVD::KnownData { value: shift })
                         if usize::from(base) == 1 =>
                     {
-                        (dividend, shift.into())
+                        (dividend, Self::shift_amount(shift))
                     }
                     _ => (value, 0),
                 },
@@ -171,10 +177,17 @@ impl Lift for SubWordValue {
                 _ => value,
             };
 
+            // A sub-word has to lie within the word: a shift that moves it (partly) beyond bit
+            // 255 does not describe any bits that exist, so we decline to lift it
+            let offset = offset.checked_add(shift)?;
+            if offset.checked_add(length)? > WORD_SIZE_BITS {
+                return None;
+            }
+
             // If we find a word, we can easily construct the return data
             let payload = SVD::SubWord {
                 value,
-                offset: offset + shift,
+                offset,
                 size: length,
             };
 
